@@ -183,6 +183,11 @@ def run(tier="quick", seed=0, arg=None):
     # group - the re-parse folds them in another member order than `&` built them
     for ta, tb in (('os_name != "java" and os_name != "nt" or sys_platform == "linux"', 'os_name != "posix" and os_name != "nt"'),
                    ('os_name != "posix" and os_name != "nt"', 'os_name != "nt" and os_name != "java"'),
+                   # two unions that share a child and each hold a factored conjunction: the raw `MarkerUnion(*markers)` candidate of union() is the cheapest
+                   # of the three, so whatever flatten_items leaves in it (a duplicate child) is returned as it is
+                   ('(os_name == "nt" and sys_platform == "win32") or (os_name == "nt" and platform_machine == "x86") or implementation_name == "cpython"',
+                    '(os_name == "posix" and sys_platform == "linux") or (os_name == "posix" and platform_machine == "arm64") or implementation_name == "cpython"'),
+                   ('(os_name == "nt" and sys_platform == "win32") or implementation_name == "cpython"', '(os_name == "posix" and sys_platform == "linux") or implementation_name == "cpython"'),
                    # the witness of finding D14 (substring vs list reading of `python_version in`), so that the finding is shown on every run
                    ('python_version in "3.10, 3.9"', 'python_version < "3.5"')):
         group_pairs += [((ta, parse_marker(ta)), (tb, parse_marker(tb))), ((tb, parse_marker(tb)), (ta, parse_marker(ta)))]
